@@ -138,10 +138,13 @@ def main(tier, seed):
     q = tier == "quick"
     inits = [("c06", dict(c06.BASE), dict(alpha="c06", cmds=0, edits=0, max_cmds=3 if q else 4, max_edits=1 if q else 2, rich=not q)),
              ("c08", c08.base_tree(c08.DIRS), dict(alpha="c08", cmds=0, max_cmds=3 if q else 4, rich=not q))]
+    # a long history (generation numbers pass 9 -> 10) in a root and a nested history
+    longbase = ops.build(eng.local_ctx(), dict(c06.BASE), [ops.create("d", ["md5"])])
+    inits.append(("c06-long", longbase, dict(alpha="c06", cmds=0, edits=0, max_cmds=11 if q else 13, max_edits=0, long=True)))
     tot = {"states": 0, "transitions": 0}
     runs = []
     for name, tree, meta in inits:
-        r = engine.bfs(eng, expand, [(tree, meta, name)], max_depth=8, label=lab, state_cap=150000)
+        r = engine.bfs(eng, expand, [(tree, meta, name)], max_depth=16, label=lab, state_cap=150000)
         runs.append(dict(alphabet=name, **r))
         tot["states"] += r["states"]
         tot["transitions"] += r["transitions"]
